@@ -326,11 +326,53 @@ func runC10(tier string) int {
 	if !longDone {
 		r.NotExhaustive("long commands not completed")
 	}
+	// dictionary sweep: every identifier-like literal of the compiler's own source (and case / prefix variants) as a
+	// command name, as an argument and as both, alone, in the middle of a stretch and as the last command of an if body
+	words := dictIdents()
+	sweepDone := r.Parallel(uint64(len(words))*3*3, func(w int, idx uint64) {
+		word := words[idx/9]
+		role, ctx := int(idx/3%3), int(idx%3)
+		name, args, outArgs := "foo", "("+word+", 5)", " "+word+", 5"
+		switch role {
+		case 1:
+			name, args, outArgs = word, "", ""
+		case 2:
+			name, args, outArgs = word, "(a, "+word+")", " a, "+word
+		}
+		if role >= 1 && (word == "end" || word == "return") {
+			return // the two documented terminator commands
+		}
+		csrc, cout := name+args, name+outArgs
+		var src string
+		var want []string
+		switch ctx {
+		case 0:
+			src, want = "script S {\n\t"+csrc+"\n}\n", []string{"S::", "\t" + cout, "\treturn"}
+		case 1:
+			src, want = "script S {\n\tpre\n\t"+csrc+"\n\tpost(x)\n}\n", []string{"S::", "\tpre", "\t" + cout, "\tpost x", "\treturn"}
+		default:
+			src, want = "script S {\n\tif (flag(F)) {\n\t\tpre\n\t\t"+csrc+"\n\t}\n\tpost\n}\n", []string{"\tpre", "\t" + cout}
+		}
+		res := comp.Compile(src, comp.Opts{Optimize: true})
+		r.Add("evaluations", 1)
+		r.Add("dictionary_sweep", 1)
+		got := nonBlank(strings.Split(res.Out, "\n"))
+		if ctx == 2 {
+			got = stretchOf(got, "\tpre", len(want))
+		}
+		if res.Err != nil || res.Panic != "" || strings.Join(got, "\n") != strings.Join(want, "\n") {
+			r.Report(harness.Violation{Sig: fmt.Sprintf("C10:dictionary:role%d", role), Summary: fmt.Sprintf("command %q (context %d): error %v; emitted %q, want %q", csrc, ctx, res.Err, clip(res.Out, 300), strings.Join(want, "\n")), Replay: map[string]interface{}{"source": src, "want": strings.Join(want, "\n"), "output": res.Out}})
+		}
+	})
+	if !sweepDone {
+		r.NotExhaustive("dictionary sweep not completed")
+	}
+	r.Set("dictionary_words", len(words))
 	r.Set("long_max_arguments_and_commands", maxK)
 	r.Set("max_tokens_completed", completed)
 	r.Set("alphabet", len(c10Alphabet))
 	r.Assume("expected line = name, then the source tokens joined by single spaces with no space before a comma; constants replaced by their value; an inline text / moves() that is a whole argument replaced by its label",
 		"no empty arguments, inline data only as whole arguments, parentheses balanced to depth 2 (the property's domain)")
 	return r.Finish(r.Get("evaluations"), r.Get("nontrivial"),
-		"every argument token sequence of length <= L over a 24-token alphabet (identifiers incl. multi-byte, keywords, decimal/negative/hex numbers, operators, an illegal character, parentheses, comma, two constants, inline text, moves()) that is in the domain, with 11 command names incl. case variants of end / return / goto / call (all names for <= 1 token, rotating beyond), in 11 contexts (after a command whose inline data are spelled like this command's data joined / typed, alone, middle of a stretch, twice in a row, all on one line, inside an if body, inside a poryswitch case selected through _ / directly, last command of an if body / loop body / switch case); plus commands with K arguments and stretches of K commands for every K up to the bound in the coverage; the whole emitted file is compared byte for byte with the generator's expectation; non-trivial = >= 2 arguments and nested parentheses")
+		"every argument token sequence of length <= L over a 24-token alphabet (identifiers incl. multi-byte, keywords, decimal/negative/hex numbers, operators, an illegal character, parentheses, comma, two constants, inline text, moves()) that is in the domain, with 11 command names incl. case variants of end / return / goto / call (all names for <= 1 token, rotating beyond), in 11 contexts (after a command whose inline data are spelled like this command's data joined / typed, alone, middle of a stretch, twice in a row, all on one line, inside an if body, inside a poryswitch case selected through _ / directly, last command of an if body / loop body / switch case); plus every identifier-like literal of the compiler's own source as command name and as argument in 3 contexts; plus commands with K arguments and stretches of K commands for every K up to the bound in the coverage; the whole emitted file is compared byte for byte with the generator's expectation; non-trivial = >= 2 arguments and nested parentheses")
 }
